@@ -97,11 +97,19 @@ theorem infer_rinv (ctx : Ctx) (fuel : Nat) :
   | svar n T0 =>
     intro bd st t' T st' h ri
     cases T0 with
-    | some A => simp only [infer, Except.ok.injEq, Prod.mk.injEq] at h; obtain ⟨-, -, rfl⟩ := h; exact ri
+    | some A =>
+      simp only [infer] at h
+      split at h
+      · cases h
+      · simp only [Except.ok.injEq, Prod.mk.injEq] at h; obtain ⟨-, -, rfl⟩ := h; exact ri
     | none =>
       simp only [infer] at h
       cases hd : ctx.svars.lookup n with
-      | some D => simp only [hd, Except.ok.injEq, Prod.mk.injEq] at h; obtain ⟨-, -, rfl⟩ := h; exact ri
+      | some D =>
+        simp only [hd] at h
+        split at h
+        · cases h
+        · simp only [Except.ok.injEq, Prod.mk.injEq] at h; obtain ⟨-, -, rfl⟩ := h; exact ri
       | none =>
         simp only [hd] at h
         cases hi : st.isctx.lookup n with
@@ -113,11 +121,19 @@ theorem infer_rinv (ctx : Ctx) (fuel : Nat) :
   | var n T0 =>
     intro bd st t' T st' h ri
     cases T0 with
-    | some A => simp only [infer, Except.ok.injEq, Prod.mk.injEq] at h; obtain ⟨-, -, rfl⟩ := h; exact ri
+    | some A =>
+      simp only [infer] at h
+      split at h
+      · cases h
+      · simp only [Except.ok.injEq, Prod.mk.injEq] at h; obtain ⟨-, -, rfl⟩ := h; exact ri
     | none =>
       simp only [infer] at h
       cases hd : ctx.vars.lookup n with
-      | some D => simp only [hd, Except.ok.injEq, Prod.mk.injEq] at h; obtain ⟨-, -, rfl⟩ := h; exact ri
+      | some D =>
+        simp only [hd] at h
+        split at h
+        · cases h
+        · simp only [Except.ok.injEq, Prod.mk.injEq] at h; obtain ⟨-, -, rfl⟩ := h; exact ri
       | none =>
         simp only [hd] at h
         cases hi : st.ictx.lookup n with
@@ -129,11 +145,25 @@ theorem infer_rinv (ctx : Ctx) (fuel : Nat) :
   | const n T0 =>
     intro bd st t' T st' h ri
     cases T0 with
-    | some A => simp only [infer, Except.ok.injEq, Prod.mk.injEq] at h; obtain ⟨-, -, rfl⟩ := h; exact ri
+    | some A =>
+      simp only [infer] at h
+      split at h
+      · cases h
+      · simp only [Except.ok.injEq, Prod.mk.injEq] at h; obtain ⟨-, -, rfl⟩ := h; exact ri
     | none =>
       simp only [infer] at h
       cases hs : ctx.sig.lookup n with
-      | none => simp [hs] at h
+      | none =>
+        simp only [hs] at h
+        cases hdf : ctx.defs.lookup n with
+        | none => simp [hdf] at h
+        | some D =>
+          simp only [hdf] at h
+          split at h
+          · cases h
+          · simp only [Except.ok.injEq, Prod.mk.injEq] at h
+            obtain ⟨-, -, rfl⟩ := h
+            exact allocFor_rinv _ _ ri
       | some S =>
         simp only [hs] at h
         cases hst : S.hasStvar with
@@ -182,13 +212,15 @@ theorem infer_rinv (ctx : Ctx) (fuel : Nat) :
     cases T0 with
     | some A =>
       simp only [infer] at h
-      cases hb : infer ctx fuel b (A :: bd) st with
-      | error e => simp [hb] at h
-      | ok r =>
-        obtain ⟨b', bodyT, st2⟩ := r
-        simp only [hb, Except.ok.injEq, Prod.mk.injEq] at h
-        obtain ⟨-, -, rfl⟩ := h
-        exact ih _ _ _ _ _ hb ri
+      split at h
+      · cases h
+      · cases hb : infer ctx fuel b (A :: bd) st with
+        | error e => simp [hb] at h
+        | ok r =>
+          obtain ⟨b', bodyT, st2⟩ := r
+          simp only [hb, Except.ok.injEq, Prod.mk.injEq] at h
+          obtain ⟨-, -, rfl⟩ := h
+          exact ih _ _ _ _ _ hb ri
     | none =>
       simp only [infer] at h
       cases hb : infer ctx fuel b ((newType st).1 :: bd) (newType st).2 with
